@@ -85,14 +85,14 @@ func (E *Engine) havocAll(st *State, why string) {
 	E.cur.touched["*"] = true
 	na := E.freshConst("alloc", "(Array Int Bool)")
 	r := E.freshName("r")
-	st.assume(fmt.Sprintf("(forall ((%s Int)) (! (=> (select %s %s) (select %s %s)) :pattern ((select %s %s))))", r, st.alloc, r, na, r, na, r))
+	st.assume(fmt.Sprintf("(forall ((%s Int)) (! (=> (select %s %s) (select %s %s)) :pattern ((select %s %s)) :pattern ((select %s %s))))", r, st.alloc, r, na, r, na, r, st.alloc, r))
 	st.alloc = na
 }
 
 func (E *Engine) growAlloc(st *State) {
 	na := E.freshConst("alloc", "(Array Int Bool)")
 	r := E.freshName("r")
-	st.assume(fmt.Sprintf("(forall ((%s Int)) (! (=> (select %s %s) (select %s %s)) :pattern ((select %s %s))))", r, st.alloc, r, na, r, na, r))
+	st.assume(fmt.Sprintf("(forall ((%s Int)) (! (=> (select %s %s) (select %s %s)) :pattern ((select %s %s)) :pattern ((select %s %s))))", r, st.alloc, r, na, r, na, r, st.alloc, r))
 	st.alloc = na
 }
 
@@ -288,7 +288,7 @@ func (E *Engine) applySpec(st *State, in ssa.Instruction, spec *FuncSpec, callee
 	label := shortKey(spec.Key)
 	// requires
 	for i, cl := range spec.Requires {
-		ev := &cenv{E: E, st: st, vars: vars, heap: st.heap, ctx: cl.Ctx, fc: E.cur}
+		ev := &cenv{E: E, st: st, vars: vars, heap: st.heap, ctx: cl.Ctx, fc: E.cur, goal: true}
 		f := ev.evalBool(cl.Expr)
 		E.oblige(st, "requires@"+label, fmt.Sprintf("%s.%d", E.site(in), i), f, cl.Text, E.pos(in), nil)
 		st.assume(f)
@@ -604,7 +604,7 @@ func (E *Engine) doReturn(st *State, in *ssa.Return) {
 		}
 	}
 	for i, cl := range c.spec.Ensures {
-		ev := &cenv{E: E, st: st, vars: rvars, heap: st.heap, oldHeap: c.entryHeap, oldVars: c.params, oldAlloc: c.entryAlloc, ctx: cl.Ctx, fc: c}
+		ev := &cenv{E: E, st: st, vars: rvars, heap: st.heap, oldHeap: c.entryHeap, oldVars: c.params, oldAlloc: c.entryAlloc, ctx: cl.Ctx, fc: c, goal: true}
 		f := ev.evalBool(cl.Expr)
 		E.oblige(st, "ensures", fmt.Sprint(i), f, cl.Text, E.pos(in), cl)
 	}
@@ -917,7 +917,12 @@ func (E *Engine) doAppend(st *State, in ssa.Instruction, args []*Val, res ssa.Va
 			if one {
 				body = fmt.Sprintf("(=> (and (<= 0 %s) (< %s %s)) (= (select %s %s) %s))", j, j, ln, inner, j, oldAt)
 				b.assume(fmt.Sprintf("(forall ((%s Int)) (! %s :pattern ((select %s %s))))", j, body, inner, j))
-				b.heap[comp] = sx("store", arr, nref, sx("store", inner, ln, srcAt(pre, l, "0")))
+				// the same fact triggered from the source side (i = off + j)
+				i2 := E.freshName("i")
+				b.assume(fmt.Sprintf("(forall ((%s Int)) (! (=> (and (<= %s %s) (< %s %s)) (= (select %s %s) (select (select %s %s) %s))) :pattern ((select (select %s %s) %s))))",
+					i2, off, i2, i2, add(off, ln), inner, sub(i2, off), arr, ref, i2, arr, ref, i2))
+				b.assume(eq(sx("select", inner, ln), srcAt(pre, l, "0")))
+				b.heap[comp] = sx("store", arr, nref, inner)
 			} else {
 				body = fmt.Sprintf("(=> (and (<= 0 %s) (< %s %s)) (= (select %s %s) (ite (< %s %s) %s %s)))", j, j, newLen, inner, j, j, ln, oldAt, srcAt(pre, l, sub(j, ln)))
 				b.assume(fmt.Sprintf("(forall ((%s Int)) (! %s :pattern ((select %s %s))))", j, body, inner, j))
